@@ -6,6 +6,7 @@ engine only enters through the range it produced.
 -/
 import Vicut.Model.Verbs
 import Vicut.Model.Motions
+import Vicut.Model.Words
 import Vicut.Props.C09
 
 namespace Vicut.C08
@@ -483,3 +484,179 @@ example : evalSimple ⟨[['a'], ['b'], ['\n'], ['c']], 0, true, false, [false, f
 example : evalSimple ⟨[['a'], ['b'], ['\n'], ['c']], 0, false, false, [false, false, true, false]⟩ .eol 1 true = .on 2 := by decide
 
 end Vicut.Motions
+
+/-! # Word motions feeding the operators
+`w W` never move backwards and land on a non-blank grapheme or at the end of the text, `b B` never move
+forwards, and every position a word motion produces lies inside the text. -/
+namespace Vicut.Words
+open Vicut
+
+theorem findUp_spec (p : Nat → Bool) (it hi r : Nat) (h : findUp p it hi = some r) :
+    it ≤ r ∧ r < hi ∧ p r = true := by
+  unfold findUp at h
+  have hm := List.mem_of_find?_eq_some h
+  have hp := List.find?_some h
+  rw [List.mem_range'_1] at hm
+  exact ⟨hm.1, by omega, hp⟩
+
+theorem findDown_spec (p : Nat → Bool) (k r : Nat) (h : findDown p k = some r) : r < k ∧ p r = true := by
+  unfold findDown at h
+  have hm := List.mem_of_find?_eq_some h
+  have hp := List.find?_some h
+  rw [List.mem_reverse, List.mem_range] at hm
+  exact ⟨hm, hp⟩
+
+/-- **`w` / `W` never move backwards** and stay inside the text. -/
+theorem startFwd_ge (s : WS) (pos : Nat) (big incl : Bool) (hp : pos ≤ s.len) :
+    pos ≤ startFwd s pos big incl ∧ startFwd s pos big incl ≤ s.len := by
+  unfold startFwd
+  split
+  · omega
+  · rename_i hlt
+    have hlt' : pos < s.len := by omega
+    cases big <;> simp only [Bool.false_eq_true, ↓reduceIte]
+    · split
+      · split
+        · omega
+        · rename_i o ho
+          have := findUp_spec _ _ _ _ ho
+          split
+          · omega
+          · cases hf : findUp (fun i => !s.ws i) (o + 1) s.len with
+            | none => simp; omega
+            | some q => have := findUp_spec _ _ _ _ hf; simp; omega
+      · cases hf : findUp (fun i => !s.ws i) pos s.len with
+        | none => simp; omega
+        | some q => have := findUp_spec _ _ _ _ hf; simp; omega
+    · split
+      · split
+        · omega
+        · cases hf : findUp (fun i => !s.ws i) (pos + 1) s.len with
+          | none => simp; omega
+          | some q => have := findUp_spec _ _ _ _ hf; simp; omega
+      · split
+        · omega
+        · rename_i w hw
+          have := findUp_spec _ _ _ _ hw
+          split
+          · omega
+          · cases hf : findUp (fun i => !s.ws i) (w + 1) s.len with
+            | none => simp; omega
+            | some q => have := findUp_spec _ _ _ _ hf; simp; omega
+
+/-- **`w` / `W` (as a motion, not `cw`) land on a non-blank grapheme, or at the end of the text.** -/
+theorem startFwd_lands (s : WS) (pos : Nat) (big : Bool) :
+    startFwd s pos big false = s.len ∨ s.ws (startFwd s pos big false) = false := by
+  unfold startFwd
+  split
+  · exact Or.inl rfl
+  · cases big <;> simp only [Bool.false_eq_true, ↓reduceIte, Bool.or_false]
+    · split
+      · split
+        · exact Or.inl rfl
+        · rename_i o ho
+          split
+          · rename_i hno; right; simpa using hno
+          · cases hf : findUp (fun i => !s.ws i) (o + 1) s.len with
+            | none => left; simp
+            | some q => right; have := (findUp_spec _ _ _ _ hf).2.2; simpa using this
+      · cases hf : findUp (fun i => !s.ws i) pos s.len with
+        | none => left; simp
+        | some q => right; have := (findUp_spec _ _ _ _ hf).2.2; simpa using this
+    · split
+      · cases hf : findUp (fun i => !s.ws i) (pos + 1) s.len with
+        | none => left; simp
+        | some q => right; have := (findUp_spec _ _ _ _ hf).2.2; simpa using this
+      · split
+        · exact Or.inl rfl
+        · rename_i w hw
+          cases hf : findUp (fun i => !s.ws i) (w + 1) s.len with
+          | none => left; simp
+          | some q => right; have := (findUp_spec _ _ _ _ hf).2.2; simpa using this
+
+/-- **`b` / `B` never move forwards.** -/
+theorem findDown_lt (p : Nat → Bool) (k : Nat) : ∀ r, findDown p k = some r → r < k := fun r h => (findDown_spec p k r h).1
+
+theorem startBwd_le (s : WS) (pos : Nat) (big : Bool) (hp : pos ≤ s.len) : startBwd s pos big ≤ pos := by
+  unfold startBwd
+  cases big <;> simp only [Bool.false_eq_true, ↓reduceIte]
+  · -- normal words
+    split
+    · omega
+    · cases hb : (decide (pos > 0) && !s.ws pos && s.otherOrWs (pos - 1) (s.c pos)) <;>
+        simp only [Bool.false_eq_true, ↓reduceIte]
+      · -- not on a boundary: p1 = pos, k1 = pos
+        cases hw : s.ws pos <;> simp only [Bool.false_eq_true, ↓reduceIte]
+        · cases hf : findDown (fun i => s.otherOrWs i (s.c pos)) pos with
+          | none => simp
+          | some w => have := findDown_lt _ _ _ hf; simp only; split <;> omega
+        · cases hj : findDown (fun i => !s.ws i) pos with
+          | none => simp
+          | some j =>
+            have hjl := findDown_lt _ _ _ hj
+            simp only [Option.map_some]
+            cases hf : findDown (fun i => s.otherOrWs i (s.c j)) j with
+            | none => simp
+            | some w => have := findDown_lt _ _ _ hf; simp only; split <;> omega
+      · cases hw : s.ws (pos - 1) <;> simp only [Bool.false_eq_true, ↓reduceIte]
+        · cases hf : findDown (fun i => s.otherOrWs i (s.c (pos - 1))) (pos - 1) with
+          | none => simp
+          | some w => have := findDown_lt _ _ _ hf; simp only; split <;> omega
+        · cases hj : findDown (fun i => !s.ws i) (pos - 1) with
+          | none => simp
+          | some j =>
+            have hjl := findDown_lt _ _ _ hj
+            simp only [Option.map_some]
+            cases hf : findDown (fun i => s.otherOrWs i (s.c j)) j with
+            | none => simp
+            | some w => have := findDown_lt _ _ _ hf; simp only; split <;> omega
+  · -- big words
+    cases hb : (decide (pos > 0) && s.ws (pos - 1)) <;> simp only [Bool.false_eq_true, ↓reduceIte]
+    · split
+      · omega
+      · cases hw : s.ws pos <;> simp only [Bool.false_eq_true, ↓reduceIte]
+        · cases hf : findDown (fun i => s.ws i) pos with
+          | none => simp
+          | some w => have := findDown_lt _ _ _ hf; simp only; split <;> omega
+        · cases hj : findDown (fun i => !s.ws i) pos with
+          | none => simp
+          | some j =>
+            have hjl := findDown_lt _ _ _ hj
+            simp only
+            cases hf : findDown (fun i => s.ws i) j with
+            | none => simp
+            | some w => have := findDown_lt _ _ _ hf; simp only; split <;> omega
+    · split
+      · omega
+      · cases hw : s.ws (pos - 1) <;> simp only [Bool.false_eq_true, ↓reduceIte]
+        · cases hf : findDown (fun i => s.ws i) (pos - 1) with
+          | none => simp
+          | some w => have := findDown_lt _ _ _ hf; simp only; split <;> omega
+        · cases hj : findDown (fun i => !s.ws i) (pos - 1) with
+          | none => simp
+          | some j =>
+            have hjl := findDown_lt _ _ _ hj
+            simp only
+            cases hf : findDown (fun i => s.ws i) j with
+            | none => simp
+            | some w => have := findDown_lt _ _ _ hf; simp only; split <;> omega
+
+/-- Every position a word motion produces lies inside the text. -/
+theorem evalWord_in_bounds (s : WS) (cur : Nat) (k : WKind) (big : Bool) (count : Nat) (change : Bool) :
+    (∃ p, evalWord s cur k big count change = .on p ∧ p ≤ s.len) ∨
+    (∃ p, evalWord s cur k big count change = .onto p ∧ p ≤ s.len) := by
+  unfold evalWord
+  cases k
+  · exact Or.inl ⟨_, rfl, Nat.min_le_right _ _⟩
+  · exact Or.inr ⟨_, rfl, Nat.min_le_right _ _⟩
+  · exact Or.inl ⟨_, rfl, Nat.min_le_right _ _⟩
+
+/-! ## Non-vacuity: "ab  cd.e" classes -/
+example : startFwd ⟨[2, 2, 1, 1, 2, 2, 0, 2]⟩ 0 false false = 4 := by decide
+example : startFwd ⟨[2, 2, 1, 1, 2, 2, 0, 2]⟩ 4 false false = 6 := by decide
+example : startFwd ⟨[2, 2, 1, 1, 2, 2, 0, 2]⟩ 4 true false = 8 := by decide
+example : endFwd ⟨[2, 2, 1, 1, 2, 2, 0, 2]⟩ 0 false = 1 := by decide
+example : startBwd ⟨[2, 2, 1, 1, 2, 2, 0, 2]⟩ 5 false = 4 := by decide
+example : evalWord ⟨[2, 2, 1, 1, 2, 2, 0, 2]⟩ 0 .startFwd false 1 true = .on 2 := by decide
+
+end Vicut.Words
